@@ -16,6 +16,30 @@ Proof.
   apply allowb_sound. exact Hc.
 Qed.
 
+(** ... and complete whenever the traversal finished: the check is then EXACT, i.e. it fails only
+    if some source occurrence that really lies on a path from a root is not sanctioned. *)
+Lemma check_all_complete g rts srcs allow :
+  finished g rts = true ->
+  (forall n d, path g rts n -> In (n, d) srcs -> sanctioned_in allow d) ->
+  check_all g rts srcs allow = true.
+Proof.
+  intros Hf H. unfold check_all. apply forallb_forall. intros [n d] Hin. simpl.
+  destruct (PS.mem n (reach g rts)) eqn:Hm; [|reflexivity]. simpl.
+  apply allowb_complete. apply (H n d); [|exact Hin].
+  apply (reach_sound g rts Hf). exact Hm.
+Qed.
+
+Lemma check_all_exact g rts srcs allow :
+  finished g rts = true ->
+  (check_all g rts srcs allow = true
+   <-> forall n d, path g rts n -> In (n, d) srcs -> sanctioned_in allow d).
+Proof.
+  intros Hf. split; [apply check_all_sound|apply check_all_complete; exact Hf].
+Qed.
+
+Lemma traversal_finished_G : finished G roots = true.
+Proof. vm_compute. reflexivity. Qed.
+
 (** the precomputed reach set is [reach G roots] *)
 Lemma reach_set_eq : reach_set = reach G roots.
 Proof. vm_compute. reflexivity. Qed.
